@@ -730,7 +730,7 @@ def rewrite_signature(rf: RepoFile, it: Item, d: FnDirective, rules: dict, name_
     return sig.rstrip(), []
 
 
-def strip_item(rf: RepoFile, it: Item, rules: dict, pub_fields=True, keep_clone=False) -> list[Edit]:
+def strip_item(rf: RepoFile, it: Item, rules: dict, pub_fields=True, keep_clone=False, structural=False) -> list[Edit]:
     """R1 (attrs, doc comments) and R4 (pub fields) on a struct/enum/const/type item. Offsets relative to it.attr_start."""
     base = it.attr_start
     toks = [t for t in rf.toks if it.attr_start <= t.start < it.end]
@@ -750,7 +750,11 @@ def strip_item(rf: RepoFile, it: Item, rules: dict, pub_fields=True, keep_clone=
             nl = '\n' * rf.src.count('\n', t.start, ct[k].end)
             atext = rf.src[t.start:ct[k].end]
             keep = ''
-            if t.start < it.start and re.search(r'derive\s*\(', atext) and re.search(r'\bCopy\b', atext):
+            if structural and t.start < it.start and re.search(r'derive\s*\(', atext) and re.search(r'\bPartialEq\b', atext):
+                # R1d: the repository derives PartialEq/Eq; Verus' `Structural` gives `==` its structural meaning
+                keep = '#[derive(PartialEq, Eq, Structural' + (', Clone, Copy' if re.search(r'\bCopy\b', atext) else '') + ')]'
+                rules['R1d'] = rules.get('R1d', 0) + 1
+            elif t.start < it.start and re.search(r'derive\s*\(', atext) and re.search(r'\bCopy\b', atext):
                 # R1c: a type that is Copy in /repo stays Copy (moves out of shared references depend on it)
                 keep = '#[derive(Clone, Copy)]'
                 rules['R1c'] = rules.get('R1c', 0) + 1
@@ -857,7 +861,8 @@ def emit(unit_dir: str, repo_root: str) -> Emitted:
             it = rf.find_item(kind, name)
             raw = rf.src[it.attr_start:it.end]
             sha = hashlib.sha256(rf.src[it.start:it.end].encode()).hexdigest()
-            edits = strip_item(rf, it, rules, pub_fields='nopub' not in opts, keep_clone='keepclone' in opts)
+            edits = strip_item(rf, it, rules, pub_fields='nopub' not in opts, keep_clone='keepclone' in opts,
+                               structural='structural' in opts)
             lines = apply_edits(raw, it.attr_start, rf, edits)
             items.append({'file': rel, 'kind': kind, 'name': name, 'line': it.line, 'sha256': sha})
             for text, org in lines:
